@@ -412,7 +412,11 @@ def run(ctx):
     model_check(ctx)
     inprocess(ctx)
     shutdown_phase(ctx)
-    blackbox(ctx)
+    if os.environ.get("VERIF_SKIP_STDIO") == "1":
+        # developer switch (mutation experiments in a scratch copy): skips building/running the real binary
+        ctx.note("stdio", "skipped by VERIF_SKIP_STDIO")
+    else:
+        blackbox(ctx)
     ctx.rule("distinct (TLC behaviour, concrete methods) pairs replayed through the real dispatch under the deterministic "
              "scheduler + stdio scripts; non-trivial = at least 2 client messages besides didOpen")
     ctx.assume("the in-process session (harness/vh-ls) feeds the real on_request_handler/on_notification_handler one "
